@@ -353,6 +353,14 @@ def check_one(ctx, m, tag, data, eof, segs, x, cache, opts=(True, False)):
                      % (len(data), mlen, len(x.body)))
         elif eof and x.outcome == 'stalled':
             ctx.fail('truncation-blocks', 'read_body', case, 'peer closed after %d of %d bytes but the reader still waits' % (len(data), mlen))
+    elif tag == 'truncated' and m.framing == 'close' and m.coding in ('gzip', 'deflate', 'raw-deflate') \
+            and len(m.head) < len(data) < mlen and eof:
+        # read-until-close has no framing to notice the cut, but the content coding has: the
+        # coded stream does not reach its end
+        if x.outcome == 'ok':
+            ctx.fail('truncation-accepted', 'read_body', case,
+                     'a %s-coded close-delimited body cut after %d of %d bytes was reported as a successful download '
+                     '(body %d bytes)' % (m.coding, len(data) - len(m.head), len(m.framed), len(x.body)))
     elif tag == 'truncated' and m.framing == 'close' and len(data) < len(m.head):
         if x.outcome == 'ok':
             ctx.fail('truncation-accepted', 'read_response', case, 'a head cut short was accepted')
@@ -569,6 +577,30 @@ def fixed_sequences():
     return out
 
 
+def coded_truncation_items():
+    """Content-coded, close-delimited responses (HTTP/1.0 style and HTTP/1.1 `Connection: close`):
+    complete, and cut by the peer at EVERY position inside the coded body.  The framing cannot
+    notice the cut; the content coding can (the coded stream does not reach its end)."""
+    import gzip
+    import zlib
+    plain = b'The quick brown fox jumps over the lazy dog. ' * 3
+    items = []
+    for coding, payload in (('gzip', gzip.compress(plain)), ('deflate', zlib.compress(plain)),
+                            ('raw-deflate', H.raw_deflate(plain))):
+        ce = b'gzip' if coding == 'gzip' else b'deflate'
+        for head, version in ((b'HTTP/1.0 200 OK\r\nContent-Encoding: ' + ce + b'\r\n\r\n', 'HTTP/1.0'),
+                              (b'HTTP/1.1 200 OK\r\nConnection: close\r\nContent-Encoding: ' + ce + b'\r\n\r\n', 'HTTP/1.1')):
+            m = _mk(head, payload, payload, version=version, framing='close')
+            m.coding = coding
+            m.tags = ['fixed', 'coded-close']
+            msg = m.message
+            h = len(head)
+            items.append((m, 'complete', msg, True, [[], list(range(1, len(msg))), [h + 1]]))
+            for c in range(h + 1, len(msg)):
+                items.append((m, 'truncated', msg[:c], True, [[], [h], list(range(h, c))]))
+    return items
+
+
 def fixed_messages():
     """Hand-written messages at the decision points of the framing rules."""
     mk = _mk
@@ -586,6 +618,13 @@ def fixed_messages():
         mk(b'HTTP/1.1 200 OK\r\nTransfer-Encoding: gzip\r\nTransfer-Encoding: chunked\r\n\r\n', b'3\r\nabc\r\n0\r\n\r\n', b'abc', framing='chunked'),
         mk(b'HTTP/1.1 200 OK\r\nContent-Length: 9\r\nTransfer-Encoding: chunked\r\n\r\n', b'3;x=y\r\nabc\r\n0\r\nT: 1\r\n\r\n', b'abc', framing='chunked'),
         mk(b'HTTP/1.0 200 OK\r\n\r\n', b'until close', framing='close', version='HTTP/1.0'),
+        # obs-fold on the framing fields, continuation starting with SP and with HTAB
+        mk(b'HTTP/1.1 200 OK\r\nTransfer-Encoding:\r\n\tchunked\r\n\r\n', b'3\r\nabc\r\n0\r\n\r\n', b'abc', framing='chunked'),
+        mk(b'HTTP/1.1 200 OK\r\nTransfer-Encoding:\r\n chunked\r\n\r\n', b'3\r\nabc\r\n0\r\n\r\n', b'abc', framing='chunked'),
+        mk(b'HTTP/1.1 200 OK\r\nTransfer-Encoding: gzip,\r\n\t chunked\r\n\r\n', b'3\r\nabc\r\n0\r\n\r\n', b'abc', framing='chunked'),
+        mk(b'HTTP/1.1 200 OK\r\nContent-Length:\r\n\t12\r\n\r\n', b'twelve bytes'),
+        mk(b'HTTP/1.1 200 OK\nContent-Length:\n 3\n\n', b'abc'),
+        mk(b'HTTP/1.1 200 OK\r\nContent-Length: 3\r\nConnection:\r\n\tclose\r\n\r\n', b'abc'),
         # status codes next to the no-body ones are framed like any other response
         mk(b'HTTP/1.1 205 Reset Content\r\nTransfer-Encoding: chunked\r\n\r\n', b'0\r\n\r\n', b'', code=205, framing='chunked'),
         mk(b'HTTP/1.1 205 Reset Content\r\nContent-Length: 3\r\n\r\n', b'abc', code=205),
@@ -652,6 +691,7 @@ def _run(ctx, pid='C08'):
                 if 0 <= c < n:
                     items.append((m, 'truncated', msg[:c], True, [[], list(range(1, c))], opts))
     stream_decode(ctx, items, thorough, cache)
+    stream_decode(ctx, coded_truncation_items(), thorough, cache)
     ctx.note('t_fixed', round(time.time() - t0, 1))
     # generated messages
     batch = []
